@@ -1,7 +1,11 @@
 import PetgraphModel.Model.UnionFind
 import PetgraphModel.Spec.Partition
+import PetgraphModel.Proofs.UnionFindBase
+import PetgraphModel.Proofs.UnionFindSpec
 /-
-Definitions used by the C19 statements and (to be filled in) their proofs.
+Definitions used by the C19 statements and their proofs.
+Generic forest lemmas live in `Proofs/UnionFindBase.lean`, quick-find / `Connected` lemmas in
+`Proofs/UnionFindSpec.lean`.
 -/
 namespace PetgraphModel.UFProofs
 open PetgraphModel PetgraphModel.UF PetgraphModel.PartitionSpec
@@ -69,39 +73,879 @@ def Fits (m n : Nat) : List Op → Bool
   | .newSet :: ops => (m == 0 || n < m) && Fits m (n + 1) ops
   | _ :: ops => Fits m n ops
 
+/-! ### helper lemmas -/
+open PetgraphModel.UFBase PetgraphModel.UFSpec
+
+/-- the rank vector as a total function -/
+def rk (s : State) : Nat → Nat := fun x => s.rank[x]?.getD 0
+
+theorem Inv.wf {s : State} (h : Inv s) : WF s.parent (rk s) := by
+  refine ⟨?_, ?_⟩
+  · intro x p hp
+    have hx := lt_of_getElem?_eq_some hp
+    have := h.parentLt x hx
+    rw [List.getElem?_eq_getElem hx] at hp
+    cases hp; exact this
+  · intro x p hp hne
+    have hx := lt_of_getElem?_eq_some hp
+    have := h.rankLt x hx
+    rw [List.getElem?_eq_getElem hx] at hp
+    cases hp; exact this hne
+
+theorem Inv.of_wf {s : State} (wf : WF s.parent (rk s)) (hl : s.rank.length = s.parent.length)
+    (hf : s.modulus = 0 ∨ s.parent.length ≤ s.modulus) : Inv s := by
+  refine ⟨hl, ?_, ?_, hf⟩
+  · intro x hx
+    exact wf.parentLt x _ (List.getElem?_eq_getElem hx)
+  · intro x hx hne
+    exact wf.rankLt x _ (List.getElem?_eq_getElem hx) hne
+
+/-- `s'` is a compressed version of `s`: same size, same roots -/
+structure Pres (s s' : State) : Prop where
+  inv : Inv s'
+  len : s'.parent.length = s.parent.length
+  modulus : s'.modulus = s.modulus
+  roots : ∀ z r, IsRoot s.parent z r → IsRoot s'.parent z r
+
+theorem Pres.refl {s : State} (h : Inv s) : Pres s s := ⟨h, rfl, rfl, fun _ _ h => h⟩
+
+theorem Pres.trans {s s1 s2 : State} (p1 : Pres s s1) (p2 : Pres s1 s2) : Pres s s2 :=
+  ⟨p2.inv, p2.len.trans p1.len, p2.modulus.trans p1.modulus,
+    fun _ _ h => p2.roots _ _ (p1.roots _ _ h)⟩
+
+/-! #### `tryFind` -/
+
+theorem tryFind_ge {s : State} {x : Nat} (hx : s.len ≤ x) : tryFind s x = .ok none := by
+  simp [tryFind, hx]
+
+theorem tryFind_of_isRoot {s : State} (h : Inv s) {x r : Nat} (hr : IsRoot s.parent x r) :
+    tryFind s x = .ok (some r) := by
+  have hx : ¬ x ≥ s.len := by have := hr.lt; unfold State.len; omega
+  have := findLoop_eq h.wf hr (fuel := s.len + 1) (by unfold State.len; omega)
+  simp [tryFind, hx, this]
+
+theorem isRoot_rootOf {s : State} (h : Inv s) {x : Nat} (hx : x < s.len) :
+    IsRoot s.parent x (rootOf s x) := by
+  obtain ⟨r, hr⟩ := root_exists h.wf (x := x) hx
+  have := tryFind_of_isRoot h hr
+  simp only [rootOf, this]
+  exact hr
+
+theorem rootOf_eq {s : State} (h : Inv s) {x r : Nat} (hr : IsRoot s.parent x r) :
+    rootOf s x = r := by
+  simp only [rootOf, tryFind_of_isRoot h hr]
+
+theorem tryFind_lt {s : State} (h : Inv s) {x : Nat} (hx : x < s.len) :
+    tryFind s x = .ok (some (rootOf s x)) :=
+  tryFind_of_isRoot h (isRoot_rootOf h hx)
+
+theorem rootOf_ge {s : State} {x : Nat} (hx : s.len ≤ x) : rootOf s x = x := by
+  simp only [rootOf, tryFind_ge hx]
+
+theorem Pres.rootOf {s s' : State} (p : Pres s s') (h : Inv s) (x : Nat) :
+    rootOf s' x = rootOf s x := by
+  by_cases hx : x < s.len
+  · exact rootOf_eq p.inv (p.roots _ _ (isRoot_rootOf h hx))
+  · have hx' : s.len ≤ x := by omega
+    rw [rootOf_ge hx', rootOf_ge (by have := p.len; unfold State.len at *; omega)]
+
+theorem Pres.tryFind {s s' : State} (p : Pres s s') (h : Inv s) (x : Nat) :
+    tryFind s' x = tryFind s x := by
+  have hl : s'.len = s.len := p.len
+  by_cases hx : x < s.len
+  · rw [tryFind_lt h hx, tryFind_lt p.inv (by omega), p.rootOf h]
+  · rw [tryFind_ge (by omega), tryFind_ge (by omega)]
+
+theorem tryFind_eq_iff {s : State} (h : Inv s) {x y : Nat} (hx : x < s.len) (hy : y < s.len) :
+    tryFind s x = tryFind s y ↔ rootOf s x = rootOf s y := by
+  rw [tryFind_lt h hx, tryFind_lt h hy]
+  constructor
+  · intro e; simpa using e
+  · intro e; rw [e]
+
+/-! #### `findMutRec`, `tryFindMut` -/
+
+theorem findMutRec_spec {s : State} (h : Inv s) {x : Nat} (hx : x < s.len) :
+    ∃ s', findMutRec s x = .ok (s', rootOf s x) ∧ Pres s s' ∧ s'.rank = s.rank ∧
+      (∀ (j pj : Nat), s.parent[j]? = some pj → s.parent[pj]? = some pj →
+        s'.parent[j]? = some pj) := by
+  have hp : s.parent[x]? = some s.parent[x] := List.getElem?_eq_getElem hx
+  obtain ⟨par', r, h1, wf', hlen, hr, pres, fix⟩ :=
+    halveLoop_spec (ρ := rk s) (s.len + 1) s.parent x s.parent[x] h.wf hp
+      (by have := above_le (rk s) s.parent.length x; unfold State.len; omega)
+  have hr' := rootOf_eq h hr
+  subst hr'
+  refine ⟨{ s with parent := par' }, ?_, ⟨?_, hlen, rfl, pres⟩, rfl, fix⟩
+  · simp [findMutRec, hp, h1]
+  · exact Inv.of_wf wf' (h.lenEq.trans hlen.symm) (by rw [hlen]; exact h.fits)
+
+theorem tryFindMut_ge {s : State} {x : Nat} (hx : s.len ≤ x) : tryFindMut s x = .ok (s, none) := by
+  simp [tryFindMut, hx]
+
+theorem tryFindMut_lt {s : State} (h : Inv s) {x : Nat} (hx : x < s.len) :
+    ∃ s', tryFindMut s x = .ok (s', some (rootOf s x)) ∧ Pres s s' ∧ s'.rank = s.rank := by
+  obtain ⟨s', h1, p, hr, _⟩ := findMutRec_spec h hx
+  refine ⟨s', ?_, p, hr⟩
+  have : ¬ x ≥ s.len := by omega
+  simp [tryFindMut, this, h1]
+
+/-! #### `tryUnion` -/
+
+theorem tryUnion_same (s : State) (x : Nat) : tryUnion s x x = .ok (s, .ok false) := by
+  simp [tryUnion]
+
+theorem tryUnion_bad1 {s : State} {x y : Nat} (hxy : x ≠ y) (hx : s.len ≤ x) :
+    tryUnion s x y = .ok (s, .error x) := by
+  simp [tryUnion, hxy, tryFindMut_ge hx]
+
+theorem tryUnion_bad2 {s : State} (h : Inv s) {x y : Nat} (hxy : x ≠ y) (hx : x < s.len)
+    (hy : s.len ≤ y) : ∃ s', tryUnion s x y = .ok (s', .error y) ∧ Pres s s' := by
+  obtain ⟨s1, h1, p, _⟩ := tryFindMut_lt h hx
+  have hy1 : s1.len ≤ y := by have := p.len; unfold State.len at *; omega
+  exact ⟨s1, by simp [tryUnion, hxy, h1, tryFindMut_ge hy1], p⟩
+
+theorem tryUnion_good {s : State} (h : Inv s) {x y : Nat} (hxy : x ≠ y) (hx : x < s.len)
+    (hy : y < s.len) :
+    ∃ s', tryUnion s x y = .ok (s', .ok (!(rootOf s x == rootOf s y))) ∧ Inv s' ∧
+      s'.parent.length = s.parent.length ∧ s'.modulus = s.modulus ∧
+      ∃ a b, ((a = rootOf s x ∧ b = rootOf s y) ∨ (a = rootOf s y ∧ b = rootOf s x)) ∧
+        ∀ z r, IsRoot s.parent z r → IsRoot s'.parent z (if r = a then b else r) := by
+  obtain ⟨s1, h1, p1, _⟩ := tryFindMut_lt h hx
+  have hy1 : y < s1.len := by have := p1.len; unfold State.len at *; omega
+  obtain ⟨s2, h2, p2, _⟩ := tryFindMut_lt p1.inv hy1
+  rw [p1.rootOf h] at h2
+  have p := p1.trans p2
+  have hra := (p.roots _ _ (isRoot_rootOf h hx)).self
+  have hrb := (p.roots _ _ (isRoot_rootOf h hy)).self
+  generalize rootOf s x = ra at *
+  generalize rootOf s y = rb at *
+  by_cases hab : ra = rb
+  · subst hab
+    refine ⟨s2, ?_, p.inv, p.len, p.modulus, ra, ra, .inl ⟨rfl, rfl⟩, ?_⟩
+    · simp [tryUnion, hxy, h1, h2]
+    · intro z r hr
+      have : (if r = ra then ra else r) = r := by split <;> simp_all
+      rw [this]; exact p.roots _ _ hr
+  · have hal := lt_of_getElem?_eq_some hra
+    have hbl := lt_of_getElem?_eq_some hrb
+    have hl2 := p.inv.lenEq
+    have hxr : s2.rank[ra]? = some s2.rank[ra] := List.getElem?_eq_getElem (by omega)
+    have hyr : s2.rank[rb]? = some s2.rank[rb] := List.getElem?_eq_getElem (by omega)
+    have ea : rk s2 ra = s2.rank[ra] := by simp [rk, hxr]
+    have eb : rk s2 rb = s2.rank[rb] := by simp [rk, hyr]
+    have hne : (ra == rb) = false := by simp [hab]
+    rw [hne]
+    rcases Nat.lt_trichotomy s2.rank[ra] s2.rank[rb] with hlt | heq | hgt
+    · -- ra below rb
+      refine ⟨{ s2 with parent := s2.parent.set ra rb }, ?_, ?_, ?_, p.modulus, ra, rb,
+        .inl ⟨rfl, rfl⟩, ?_⟩
+      · simp [tryUnion, hxy, h1, h2, hab, hxr, hyr, hlt]
+      · apply Inv.of_wf
+        · exact link_wf (ρ := rk s2) p.inv.wf hra hrb hab
+            (by show rk s2 ra < rk s2 rb; rw [ea, eb]; exact hlt)
+            (fun _ _ => rfl) (Nat.le_refl _)
+        · simp only [List.length_set]; exact hl2
+        · simp only [List.length_set]; exact p.inv.fits
+      · simp only [List.length_set]; exact p.len
+      · intro z r hr
+        exact link_roots hra hrb hab (p.roots _ _ hr)
+    · -- equal ranks: rb below ra, rank of ra incremented
+      have hba : rb ≠ ra := Ne.symm hab
+      refine ⟨{ s2 with parent := s2.parent.set rb ra,
+                        rank := s2.rank.set ra (s2.rank[ra] + 1) }, ?_, ?_, ?_, p.modulus, rb, ra,
+        .inr ⟨rfl, rfl⟩, ?_⟩
+      · have h3 : ¬ s2.rank[ra] < s2.rank[rb] := by omega
+        have h4 : ¬ s2.rank[ra] > s2.rank[rb] := by omega
+        simp [tryUnion, hxy, h1, h2, hab, hxr, hyr, h3, h4]
+      · apply Inv.of_wf
+        · refine link_wf (ρ := rk s2) p.inv.wf hrb hra hba ?_ ?_ ?_
+          · simp only [rk, List.getElem?_set_ne hab, hyr]
+            rw [List.getElem?_set_self (by omega)]
+            simp; omega
+          · intro z hz
+            simp only [rk, List.getElem?_set_ne (Ne.symm hz)]
+          · simp only [rk]
+            rw [List.getElem?_set_self (by omega), hxr]
+            simp
+        · simp only [List.length_set]; exact hl2
+        · simp only [List.length_set]; exact p.inv.fits
+      · simp only [List.length_set]; exact p.len
+      · intro z r hr
+        exact link_roots hrb hra hba (p.roots _ _ hr)
+    · -- rb below ra
+      have hba : rb ≠ ra := Ne.symm hab
+      refine ⟨{ s2 with parent := s2.parent.set rb ra }, ?_, ?_, ?_, p.modulus, rb, ra,
+        .inr ⟨rfl, rfl⟩, ?_⟩
+      · have h3 : ¬ s2.rank[ra] < s2.rank[rb] := by omega
+        simp [tryUnion, hxy, h1, h2, hab, hxr, hyr, h3, hgt]
+      · apply Inv.of_wf
+        · exact link_wf (ρ := rk s2) p.inv.wf hrb hra hba
+            (by show rk s2 rb < rk s2 ra; rw [ea, eb]; exact hgt)
+            (fun _ _ => rfl) (Nat.le_refl _)
+        · simp only [List.length_set]; exact hl2
+        · simp only [List.length_set]; exact p.inv.fits
+      · simp only [List.length_set]; exact p.len
+      · intro z r hr
+        exact link_roots hrb hra hba (p.roots _ _ hr)
+
+/-! #### `into_labeling` -/
+
+theorem labelLoop_spec : ∀ (n : Nat) (s : State) (ix : Nat), Inv s → ix + n = s.len →
+    (∀ (j pj : Nat), j < ix → s.parent[j]? = some pj → s.parent[pj]? = some pj) →
+    ∃ s', labelLoop s n ix = .ok s' ∧ s'.parent.length = s.parent.length ∧
+      (∀ z r, IsRoot s.parent z r → IsRoot s'.parent z r) ∧
+      (∀ (j pj : Nat), s'.parent[j]? = some pj → s'.parent[pj]? = some pj)
+  | 0, s, ix, _, hn, hfix =>
+    ⟨s, rfl, rfl, fun _ _ h => h, fun j pj hj =>
+      hfix j pj (by have := lt_of_getElem?_eq_some hj; unfold State.len at hn; omega) hj⟩
+  | n+1, s, ix, h, hn, hfix => by
+    have hix : ix < s.len := by omega
+    have hp : s.parent[ix]? = some s.parent[ix] := List.getElem?_eq_getElem hix
+    have hk : s.parent[ix] < s.len := h.parentLt ix hix
+    obtain ⟨s1, h1, p1, _, fix1⟩ := findMutRec_spec h hk
+    have hr0 := isRoot_rootOf h hix
+    have hrk' : rootOf s s.parent[ix] = rootOf s ix := rootOf_eq h (hr0.parent hp)
+    rw [hrk'] at h1
+    have hr1 := p1.roots _ _ hr0
+    have hix1 : ix < s1.parent.length := hr1.lt
+    obtain ⟨wf2, pres2⟩ := set_root_preserve p1.inv.wf hr1
+    have inv2 : Inv { s1 with parent := s1.parent.set ix (rootOf s ix) } := by
+      apply Inv.of_wf
+      · exact wf2
+      · simp only [List.length_set]; exact p1.inv.lenEq
+      · simp only [List.length_set]; exact p1.inv.fits
+    have hB : ∀ (q : Nat), s1.parent[q]? = some q →
+        (s1.parent.set ix (rootOf s ix))[q]? = some q := by
+      intro q hq
+      by_cases hqi : q = ix
+      · subst hqi
+        rw [List.getElem?_set_self hix1, hr1.of_self hq]
+      · rw [List.getElem?_set_ne (Ne.symm hqi)]; exact hq
+    have hfix2 : ∀ (j pj : Nat), j < ix + 1 →
+        (s1.parent.set ix (rootOf s ix))[j]? = some pj →
+        (s1.parent.set ix (rootOf s ix))[pj]? = some pj := by
+      intro j pj hj hjp
+      by_cases hji : j = ix
+      · subst hji
+        rw [List.getElem?_set_self hix1] at hjp
+        cases hjp
+        exact hB _ hr1.self
+      · rw [List.getElem?_set_ne (Ne.symm hji)] at hjp
+        have hjl : j < s.parent.length := by unfold State.len at hix; omega
+        have h0 := hfix j _ (by omega) (List.getElem?_eq_getElem hjl)
+        have h1' := fix1 j _ (List.getElem?_eq_getElem hjl) h0
+        rw [h1'] at hjp
+        cases hjp
+        exact hB _ (fix1 _ _ h0 h0)
+    have hlen2 : ix + 1 + n = State.len { s1 with parent := s1.parent.set ix (rootOf s ix) } := by
+      have := p1.len
+      simp only [State.len, List.length_set] at hn ⊢
+      omega
+    obtain ⟨s', h3, hlen3, pres3, fix3⟩ := labelLoop_spec n _ (ix + 1) inv2 hlen2 hfix2
+    refine ⟨s', ?_, ?_, ?_, fix3⟩
+    · unfold labelLoop
+      simp only [hp, h1]
+      exact h3
+    · rw [hlen3]; simp only [List.length_set]; exact p1.len
+    · intro z r hr; exact pres3 _ _ (pres2 _ _ (p1.roots _ _ hr))
+
+theorem intoLabeling_spec {s : State} (h : Inv s) :
+    intoLabeling s = .ok ((List.range s.len).map (rootOf s)) := by
+  obtain ⟨s', h1, hlen, pres, fix⟩ := labelLoop_spec s.len s 0 h (by simp)
+    (by intro j pj hj; omega)
+  have : s'.parent = (List.range s.len).map (rootOf s) := by
+    apply List.ext_getElem?
+    intro i
+    by_cases hi : i < s.len
+    · have hi' : i < s'.parent.length := by unfold State.len at hi; omega
+      have e := List.getElem?_eq_getElem hi'
+      have hroot := fix _ _ e
+      have r1 : IsRoot s'.parent i s'.parent[i] := by
+        by_cases hs : s'.parent[i] = i
+        · rw [hs] at e ⊢; exact .root e
+        · exact .step e hs (.root hroot)
+      have r2 := pres _ _ (isRoot_rootOf h hi)
+      rw [e, r1.functional r2, List.getElem?_map, List.getElem?_range hi]
+      rfl
+    · rw [List.getElem?_eq_none (by unfold State.len at hi; omega),
+        List.getElem?_eq_none (by simp; omega)]
+  simp only [intoLabeling, h1, this]
+
+/-! #### classification of calls -/
+
+theorem op_cases (n : Nat) (op : Op) :
+    op = .newSet ∨
+    (∃ x y, (op = .union x y ∨ op = .tryUnion x y) ∧ x ≠ y ∧ x < n ∧ y < n) ∨
+    (op ≠ .newSet ∧
+      ∀ x y, (op = .union x y ∨ op = .tryUnion x y) → ¬ (x ≠ y ∧ x < n ∧ y < n)) := by
+  cases op with
+  | newSet => exact .inl rfl
+  | union x y =>
+    by_cases hc : x ≠ y ∧ x < n ∧ y < n
+    · exact .inr (.inl ⟨x, y, .inl rfl, hc⟩)
+    · refine .inr (.inr ⟨by simp, ?_⟩)
+      intro x' y' h; simp at h; obtain ⟨rfl, rfl⟩ := h; exact hc
+  | tryUnion x y =>
+    by_cases hc : x ≠ y ∧ x < n ∧ y < n
+    · exact .inr (.inl ⟨x, y, .inr rfl, hc⟩)
+    · refine .inr (.inr ⟨by simp, ?_⟩)
+      intro x' y' h; simp at h; obtain ⟨rfl, rfl⟩ := h; exact hc
+  | _ => exact .inr (.inr ⟨by simp, by simp⟩)
+
+theorem specStep_pres {q : QF} {op : Op} (hns : op ≠ .newSet)
+    (hu : ∀ x y, (op = .union x y ∨ op = .tryUnion x y) → ¬ (x ≠ y ∧ x < q.len ∧ y < q.len)) :
+    specStep q op = q := by
+  cases op with
+  | newSet => exact absurd rfl hns
+  | union x y => have := hu x y (.inl rfl); simp only [specStep, this, if_false]
+  | tryUnion x y => have := hu x y (.inr rfl); simp only [specStep, this, if_false]
+  | _ => rfl
+
+theorem step_union_fst {s s' : State} {x y : Nat} {r : Except Nat Bool}
+    (h : tryUnion s x y = .ok (s', r)) :
+    (step s (.union x y)).1 = s' ∧ (step s (.tryUnion x y)).1 = s' := by
+  cases r <;> simp [step, h]
+
+theorem tryUnion_pres {s : State} (h : Inv s) {x y : Nat}
+    (hbad : ¬ (x ≠ y ∧ x < s.len ∧ y < s.len)) :
+    ∃ s' r, tryUnion s x y = .ok (s', r) ∧ Pres s s' := by
+  by_cases hxy : x = y
+  · subst hxy; exact ⟨s, _, tryUnion_same s x, Pres.refl h⟩
+  · by_cases hx : x < s.len
+    · have hy : s.len ≤ y := by omega
+      obtain ⟨s', h1, p⟩ := tryUnion_bad2 h hxy hx hy
+      exact ⟨s', _, h1, p⟩
+    · exact ⟨s, _, tryUnion_bad1 hxy (by omega), Pres.refl h⟩
+
+theorem step_pres {s : State} (h : Inv s) (op : Op) (hns : op ≠ .newSet)
+    (hu : ∀ x y, (op = .union x y ∨ op = .tryUnion x y) → ¬ (x ≠ y ∧ x < s.len ∧ y < s.len)) :
+    Pres s (step s op).1 := by
+  cases op with
+  | newSet => exact absurd rfl hns
+  | find x => simp only [step]; split <;> exact Pres.refl h
+  | tryFind x => simp only [step]; split <;> exact Pres.refl h
+  | findMut x =>
+    by_cases hx : x < s.len
+    · obtain ⟨s', h1, p, _⟩ := findMutRec_spec h hx
+      simp only [step, hx, if_true, h1]; exact p
+    · simp only [step, hx, if_false]; exact Pres.refl h
+  | tryFindMut x =>
+    by_cases hx : x < s.len
+    · obtain ⟨s', h1, p, _⟩ := tryFindMut_lt h hx
+      simp only [step, h1]; exact p
+    · simp only [step, tryFindMut_ge (Nat.le_of_not_lt hx)]; exact Pres.refl h
+  | equiv x y => simp only [step]; split <;> exact Pres.refl h
+  | tryEquiv x y => simp only [step]; split <;> exact Pres.refl h
+  | union x y =>
+    obtain ⟨s', r, h1, p⟩ := tryUnion_pres h (hu x y (.inl rfl))
+    rw [(step_union_fst h1).1]; exact p
+  | tryUnion x y =>
+    obtain ⟨s', r, h1, p⟩ := tryUnion_pres h (hu x y (.inr rfl))
+    rw [(step_union_fst h1).2]; exact p
+  | labeling => simp only [step]; split <;> exact Pres.refl h
+  | len => exact Pres.refl h
+  | capacityOp => exact Pres.refl h
+
+/-! #### `new_set` -/
+
+theorem mkIx_eq {m n : Nat} (h : m = 0 ∨ n < m) : mkIx m n = n := by
+  unfold mkIx
+  split
+  · rfl
+  · rcases h with h | h
+    · contradiction
+    · exact Nat.mod_eq_of_lt h
+
+theorem isRoot_append {parent : List Nat} {l : List Nat} {z r : Nat} (h : IsRoot parent z r) :
+    IsRoot (parent ++ l) z r := by
+  induction h with
+  | root h =>
+    exact .root (by rw [List.getElem?_append, if_pos (lt_of_getElem?_eq_some h)]; exact h)
+  | step h hne _ ih =>
+    exact .step (by rw [List.getElem?_append, if_pos (lt_of_getElem?_eq_some h)]; exact h) hne ih
+
+theorem newSet_spec {s : State} (h : Inv s) (hfit : s.modulus = 0 ∨ s.len < s.modulus) :
+    (newSet s).2 = s.len ∧ Inv (newSet s).1 ∧ (newSet s).1.len = s.len + 1 ∧
+    (newSet s).1.modulus = s.modulus ∧
+    (∀ z, z < s.len → rootOf (newSet s).1 z = rootOf s z) ∧
+    rootOf (newSet s).1 s.len = s.len := by
+  have hm : mkIx s.modulus s.parent.length = s.parent.length := mkIx_eq hfit
+  have hlast : (s.parent ++ [s.parent.length])[s.parent.length]? = some s.parent.length := by
+    simp
+  have inv' : Inv (newSet s).1 := by
+    simp only [newSet, hm]
+    apply Inv.of_wf
+    · refine ⟨?_, ?_⟩
+      · intro x p hp
+        simp only [List.getElem?_append, List.length_append, List.length_singleton] at hp ⊢
+        split at hp
+        · have := h.wf.parentLt _ _ hp; omega
+        · have hx := lt_of_getElem?_eq_some hp
+          simp at hx
+          have : x - s.parent.length = 0 := by omega
+          rw [this] at hp; simp at hp; omega
+      · intro x p hp hne
+        simp only [List.getElem?_append] at hp
+        split at hp
+        · have hlt := h.wf.parentLt _ _ hp
+          have := h.wf.rankLt _ _ hp hne
+          have e1 : rk { s with parent := s.parent ++ [s.parent.length], rank := s.rank ++ [0] } x
+              = rk s x := by
+            simp only [rk, List.getElem?_append]
+            rw [if_pos (by have := h.lenEq; omega)]
+          have e2 : rk { s with parent := s.parent ++ [s.parent.length], rank := s.rank ++ [0] } p
+              = rk s p := by
+            simp only [rk, List.getElem?_append]
+            rw [if_pos (by have := h.lenEq; omega)]
+          rw [e1, e2]; exact this
+        · have hx := lt_of_getElem?_eq_some hp
+          simp at hx
+          have h0 : x - s.parent.length = 0 := by omega
+          rw [h0] at hp; simp at hp; omega
+    · simp only [List.length_append, List.length_singleton]; have := h.lenEq; omega
+    · simp only [List.length_append, List.length_singleton]
+      rcases hfit with hf | hf
+      · exact .inl hf
+      · exact .inr hf
+  refine ⟨hm, inv', ?_, rfl, ?_, ?_⟩
+  · simp [newSet, State.len]
+  · intro z hz
+    have := isRoot_append (l := [s.parent.length]) (isRoot_rootOf h hz)
+    apply rootOf_eq inv'
+    simp only [newSet, hm]; exact this
+  · apply rootOf_eq inv'
+    simp only [newSet, hm]
+    exact .root hlast
+
+/-! #### the refinement relation is preserved -/
+
+theorem merge_rel {n : Nat} {f c : Nat → Nat} {x y a b : Nat} (hx : x < n) (hy : y < n)
+    (hrel : ∀ z w, z < n → w < n → (f z = f w ↔ c z = c w))
+    (hab : (a = f x ∧ b = f y) ∨ (a = f y ∧ b = f x)) :
+    ∀ z w, z < n → w < n →
+      ((if f z = a then b else f z) = (if f w = a then b else f w) ↔
+       (if c z = c y then c x else c z) = (if c w = c y then c x else c w)) := by
+  intro z w hz hw
+  have h1 := hrel z w hz hw
+  have h2 := hrel z x hz hx
+  have h3 := hrel z y hz hy
+  have h4 := hrel w x hw hx
+  have h5 := hrel w y hw hy
+  have h6 := hrel x y hx hy
+  rcases hab with ⟨rfl, rfl⟩ | ⟨rfl, rfl⟩ <;> grind
+
+/-- the canonical quick-find state of a concrete state: label = representative -/
+def canonQ (s : State) : QF := ⟨(List.range s.len).map (rootOf s)⟩
+
+theorem canonQ_len (s : State) : (canonQ s).len = s.len := by simp [canonQ, QF.len]
+
+theorem canonQ_cl {s : State} {x : Nat} (hx : x < s.len) : cl (canonQ s) x = rootOf s x := by
+  simp [cl, canonQ, List.getElem?_range hx]
+
+theorem rootOf_lt {s : State} (h : Inv s) {x : Nat} (hx : x < s.len) : rootOf s x < s.len :=
+  (isRoot_rootOf h hx).root_lt
+
+theorem rel_iff {s : State} {q : QF} (h : Inv s) (hl : s.len = q.len) :
+    (∀ x y, x < s.len → y < s.len → (tryFind s x = tryFind s y ↔ q.same x y = true)) ↔
+    (∀ x y, x < s.len → y < s.len → (rootOf s x = rootOf s y ↔ cl q x = cl q y)) := by
+  constructor
+  · intro hr x y hx hy
+    rw [← tryFind_eq_iff h hx hy, hr x y hx hy, same_iff (by omega) (by omega)]
+  · intro hr x y hx hy
+    rw [tryFind_eq_iff h hx hy, hr x y hx hy, same_iff (by omega) (by omega)]
+
+theorem canonQ_rel {s : State} (h : Inv s) :
+    ∀ x y, x < s.len → y < s.len → (tryFind s x = tryFind s y ↔ (canonQ s).same x y = true) := by
+  rw [rel_iff h (canonQ_len s).symm]
+  intro x y hx hy
+  rw [canonQ_cl hx, canonQ_cl hy]
+
+theorem step_rel {s : State} {q : QF} (op : Op) (h : Inv s) (ok : Ok q) (hl : s.len = q.len)
+    (hrel : ∀ x y, x < s.len → y < s.len → (rootOf s x = rootOf s y ↔ cl q x = cl q y))
+    (hfit : op = .newSet → s.modulus = 0 ∨ s.len < s.modulus) :
+    Inv (step s op).1 ∧ Ok (specStep q op) ∧ (step s op).1.len = (specStep q op).len ∧
+    (step s op).1.modulus = s.modulus ∧
+    (∀ x y, x < (step s op).1.len → y < (step s op).1.len →
+      (rootOf (step s op).1 x = rootOf (step s op).1 y ↔
+        cl (specStep q op) x = cl (specStep q op) y)) := by
+  rcases op_cases s.len op with rfl | ⟨x, y, hop, hxy, hx, hy⟩ | ⟨hns, hu⟩
+  · obtain ⟨_, inv', hlen, hmod, hroots, hlast⟩ := newSet_spec h (hfit rfl)
+    have e : (step s .newSet).1 = (newSet s).1 := rfl
+    rw [e]
+    refine ⟨inv', ok_newSet ok, by rw [hlen, hl]; exact (len_newSet q).symm, hmod, ?_⟩
+    intro x y hx' hy'
+    rw [hlen] at hx' hy'
+    simp only [specStep]
+    by_cases hxn : x = s.len <;> by_cases hyn : y = s.len
+    · subst hxn hyn; simp
+    · subst hxn
+      have hy2 : y < s.len := by omega
+      rw [hlast, hroots y hy2, hl, cl_newSet_len, cl_newSet_lt (by omega)]
+      have := rootOf_lt h hy2
+      have := cl_lt ok (x := y) (by omega)
+      constructor <;> intro <;> omega
+    · subst hyn
+      have hx2 : x < s.len := by omega
+      rw [hlast, hroots x hx2, hl, cl_newSet_len, cl_newSet_lt (by omega)]
+      have := rootOf_lt h hx2
+      have := cl_lt ok (x := x) (by omega)
+      constructor <;> intro <;> omega
+    · have hx2 : x < s.len := by omega
+      have hy2 : y < s.len := by omega
+      rw [hroots x hx2, hroots y hy2, cl_newSet_lt (by omega), cl_newSet_lt (by omega)]
+      exact hrel x y hx2 hy2
+  · obtain ⟨s', h1, inv', hlen, hmod, a, b, hab, hroots⟩ := tryUnion_good h hxy hx hy
+    have hs' : (step s op).1 = s' := by
+      rcases hop with rfl | rfl
+      · exact (step_union_fst h1).1
+      · exact (step_union_fst h1).2
+    have hq' : specStep q op = q.union x y := by
+      have : x ≠ y ∧ x < q.len ∧ y < q.len := ⟨hxy, by omega, by omega⟩
+      rcases hop with rfl | rfl <;> simp only [specStep] <;> rw [if_pos this]
+    have hlen' : s'.len = s.len := hlen
+    have hxq : x < q.len := by omega
+    have hyq : y < q.len := by omega
+    rw [hs', hq']
+    refine ⟨inv', ok_union ok hxq hyq, by rw [hlen', len_union hxq hyq, hl], hmod, ?_⟩
+    intro z w hz hw
+    rw [hlen'] at hz hw
+    have hr : ∀ z, z < s.len → rootOf s' z = if rootOf s z = a then b else rootOf s z :=
+      fun z hz => rootOf_eq inv' (hroots _ _ (isRoot_rootOf h hz))
+    rw [hr z hz, hr w hw, cl_union hxq hyq (by omega), cl_union hxq hyq (by omega)]
+    exact merge_rel hx hy hrel hab z w hz hw
+  · have p := step_pres h op hns hu
+    have hq' : specStep q op = q := specStep_pres hns (by rw [← hl]; exact hu)
+    have hlen' : (step s op).1.len = s.len := p.len
+    rw [hq']
+    refine ⟨p.inv, ok, by rw [hlen', hl], p.modulus, ?_⟩
+    intro x y hx hy
+    rw [p.rootOf h, p.rootOf h]
+    exact hrel x y (by omega) (by omega)
+
+theorem same_eq {s : State} {q : QF} (h : Inv s)
+    (hrel : ∀ x y, x < s.len → y < s.len → (tryFind s x = tryFind s y ↔ q.same x y = true))
+    {x y : Nat} (hx : x < s.len) (hy : y < s.len) :
+    q.same x y = (rootOf s x == rootOf s y) := by
+  have := hrel x y hx hy
+  rw [tryFind_eq_iff h hx hy] at this
+  rw [Bool.eq_iff_iff, ← this]; simp
+
+theorem specStep_len (q : QF) (op : Op) :
+    (specStep q op).len = if op = .newSet then q.len + 1 else q.len := by
+  cases op with
+  | newSet => simp [specStep, len_newSet]
+  | union x y =>
+    simp only [specStep]
+    split
+    · rename_i hc; simp [len_union hc.2.1 hc.2.2]
+    · simp
+  | tryUnion x y =>
+    simp only [specStep]
+    split
+    · rename_i hc; simp [len_union hc.2.1 hc.2.2]
+    · simp
+  | _ => simp [specStep]
+
+theorem fits_cons {m n : Nat} {op : Op} {ops : List Op} (h : Fits m n (op :: ops) = true) :
+    (op = .newSet → m = 0 ∨ n < m) ∧ Fits m (if op = .newSet then n + 1 else n) ops = true := by
+  cases op <;> simp_all [Fits]
+
+theorem run_cons_fst (s : State) (op : Op) (ops : List Op) :
+    (run s (op :: ops)).1 = (run (step s op).1 ops).1 := rfl
+
+theorem run_rel (m : Nat) : ∀ (ops : List Op) (s : State) (q : QF), Inv s → Ok q →
+    s.len = q.len → s.modulus = m →
+    (∀ x y, x < s.len → y < s.len → (rootOf s x = rootOf s y ↔ cl q x = cl q y)) →
+    Fits m s.len ops = true →
+    Inv (run s ops).1 ∧ (run s ops).1.len = (specRun q ops).len ∧
+    ∀ x y, x < (run s ops).1.len → y < (run s ops).1.len →
+      (rootOf (run s ops).1 x = rootOf (run s ops).1 y ↔
+        cl (specRun q ops) x = cl (specRun q ops) y)
+  | [], s, q, h, _, hl, _, hrel, _ => ⟨h, hl, hrel⟩
+  | op :: ops, s, q, h, ok, hl, hm, hrel, hf => by
+    obtain ⟨hfit, hf'⟩ := fits_cons hf
+    obtain ⟨inv', ok', hl', hm', hrel'⟩ :=
+      step_rel op h ok hl hrel (fun e => by rw [hm]; exact hfit e)
+    rw [run_cons_fst]
+    show Inv (run (step s op).1 ops).1 ∧
+      (run (step s op).1 ops).1.len = (specRun (specStep q op) ops).len ∧ _
+    refine run_rel m ops _ _ inv' ok' hl' (hm'.trans hm) hrel' ?_
+    rw [hl', specStep_len, ← hl]
+    exact hf'
+
 /-! ### obligations (statements fixed by `Theorems/C19.lean`) -/
 
-theorem inv_new (m n : Nat) (h : m = 0 ∨ n ≤ m) : Inv (UF.new m n) := by sorry
+theorem inv_new (m n : Nat) (h : m = 0 ∨ n ≤ m) : Inv (UF.new m n) := by
+  have hp : ∀ x (hx : x < n), ((List.range n).map (mkIx m))[x]? = some x := by
+    intro x hx
+    rw [List.getElem?_map, List.getElem?_range hx]
+    simp only [Option.map_some]
+    rw [mkIx_eq (by omega)]
+  apply Inv.of_wf
+  · refine ⟨?_, ?_⟩
+    · intro x p hx
+      have hl := lt_of_getElem?_eq_some hx
+      simp only [UF.new, List.length_map, List.length_range] at hl hx ⊢
+      rw [hp x hl] at hx; cases hx; exact hl
+    · intro x p hx hne
+      have hl := lt_of_getElem?_eq_some hx
+      simp only [UF.new, List.length_map, List.length_range] at hl hx
+      rw [hp x hl] at hx; cases hx; exact absurd rfl hne
+  · simp [UF.new]
+  · simp only [UF.new, List.length_map, List.length_range]; exact h
 
 theorem inv_step (s : State) (op : Op) (h : Inv s)
-    (hfit : op = .newSet → s.modulus = 0 ∨ s.len < s.modulus) : Inv (step s op).1 := by sorry
-
-theorem no_fault (s : State) (op : Op) (h : Inv s) : ∀ f, (step s op).2 ≠ .fault f := by sorry
+    (hfit : op = .newSet → s.modulus = 0 ∨ s.len < s.modulus) : Inv (step s op).1 := by
+  rcases op_cases s.len op with rfl | ⟨x, y, hop, hxy, hx, hy⟩ | ⟨hns, hu⟩
+  · exact (newSet_spec h (hfit rfl)).2.1
+  · obtain ⟨s', h1, inv', _⟩ := tryUnion_good h hxy hx hy
+    rcases hop with rfl | rfl
+    · rw [(step_union_fst h1).1]; exact inv'
+    · rw [(step_union_fst h1).2]; exact inv'
+  · exact (step_pres h op hns hu).inv
 
 theorem root_total (s : State) (h : Inv s) (x : Nat) (hx : x < s.len) :
-    ∃ r, tryFind s x = .ok (some r) ∧ r < s.len ∧ s.parent[r]? = some r := by sorry
+    ∃ r, tryFind s x = .ok (some r) ∧ r < s.len ∧ s.parent[r]? = some r :=
+  ⟨rootOf s x, tryFind_lt h hx, rootOf_lt h hx, (isRoot_rootOf h hx).self⟩
 
 theorem all_histories (m n : Nat) (ops : List Op) (hm : m = 0 ∨ n ≤ m) (hf : Fits m n ops) :
     let s := (run (UF.new m n) ops).1
     let q := specRun (QF.new n) ops
     Inv s ∧ s.len = q.len ∧
-    ∀ x y, x < s.len → y < s.len → (tryFind s x = tryFind s y ↔ q.same x y = true) := by sorry
+    ∀ x y, x < s.len → y < s.len → (tryFind s x = tryFind s y ↔ q.same x y = true) := by
+  intro s q
+  have h0 := inv_new m n hm
+  have hl0 : (UF.new m n).len = n := by simp [UF.new, State.len]
+  have hl : (UF.new m n).len = (QF.new n).len := by rw [hl0, len_new]
+  have hrel0 : ∀ x y, x < (UF.new m n).len → y < (UF.new m n).len →
+      (rootOf (UF.new m n) x = rootOf (UF.new m n) y ↔ cl (QF.new n) x = cl (QF.new n) y) := by
+    intro x y hx hy
+    have hr : ∀ z, z < (UF.new m n).len → rootOf (UF.new m n) z = z := by
+      intro z hz
+      apply rootOf_eq h0
+      refine .root ?_
+      rw [hl0] at hz
+      simp only [UF.new, List.getElem?_map, List.getElem?_range hz, Option.map_some]
+      rw [mkIx_eq (by omega)]
+    rw [hr x hx, hr y hy, cl_new (by omega), cl_new (by omega)]
+  obtain ⟨inv', hl', hrel'⟩ :=
+    run_rel m ops (UF.new m n) (QF.new n) h0 (ok_new n) hl rfl hrel0 (by rw [hl0]; exact hf)
+  exact ⟨inv', hl', (rel_iff inv' hl').mpr hrel'⟩
 
 theorem outputs (s : State) (q : QF) (op : Op) (h : Inv s) (hl : s.len = q.len)
     (hrel : ∀ x y, x < s.len → y < s.len → (tryFind s x = tryFind s y ↔ q.same x y = true))
     (hfit : op = .newSet → s.modulus = 0 ∨ s.len < s.modulus) :
-    (step s op).2 = specOut s q op := by sorry
+    (step s op).2 = specOut s q op := by
+  cases op with
+  | newSet =>
+    show Out.ix (mkIx s.modulus s.parent.length) = Out.ix q.len
+    have e : mkIx s.modulus s.parent.length = s.parent.length := mkIx_eq (hfit rfl)
+    rw [e, ← hl]; rfl
+  | find x =>
+    by_cases hx : x < s.len
+    · have hq : x < q.len := by omega
+      simp [step, tryFind_lt h hx, specOut, hq]
+    · have hq : ¬ x < q.len := by omega
+      simp [step, tryFind_ge (Nat.le_of_not_lt hx), specOut, hq]
+  | tryFind x =>
+    by_cases hx : x < s.len
+    · have hq : x < q.len := by omega
+      simp [step, tryFind_lt h hx, specOut, hq]
+    · have hq : ¬ x < q.len := by omega
+      simp [step, tryFind_ge (Nat.le_of_not_lt hx), specOut, hq]
+  | findMut x =>
+    by_cases hx : x < s.len
+    · have hq : x < q.len := by omega
+      obtain ⟨s', h1, _⟩ := findMutRec_spec h hx
+      simp [step, hx, h1, specOut, hq]
+    · have hq : ¬ x < q.len := by omega
+      simp [step, hx, specOut, hq]
+  | tryFindMut x =>
+    by_cases hx : x < s.len
+    · have hq : x < q.len := by omega
+      obtain ⟨s', h1, _⟩ := tryFindMut_lt h hx
+      simp [step, h1, specOut, hq]
+    · have hq : ¬ x < q.len := by omega
+      simp [step, tryFindMut_ge (Nat.le_of_not_lt hx), specOut, hq]
+  | equiv x y =>
+    by_cases hx : x < s.len <;> by_cases hy : y < s.len
+    · have hq1 : ¬ q.len ≤ x := by omega
+      have hq2 : ¬ q.len ≤ y := by omega
+      simp [step, tryFind_lt h hx, tryFind_lt h hy, specOut, firstBad, hq1, hq2,
+        same_eq h hrel hx hy]
+    · have hq1 : ¬ q.len ≤ x := by omega
+      have hq2 : q.len ≤ y := by omega
+      simp [step, tryFind_lt h hx, tryFind_ge (Nat.le_of_not_lt hy), specOut, firstBad, hq1, hq2]
+    · have hq1 : q.len ≤ x := by omega
+      simp [step, tryFind_ge (Nat.le_of_not_lt hx), tryFind_lt h hy, specOut, firstBad, hq1]
+    · have hq1 : q.len ≤ x := by omega
+      simp [step, tryFind_ge (Nat.le_of_not_lt hx), tryFind_ge (Nat.le_of_not_lt hy), specOut,
+        firstBad, hq1]
+  | tryEquiv x y =>
+    by_cases hx : x < s.len <;> by_cases hy : y < s.len
+    · have hq1 : ¬ q.len ≤ x := by omega
+      have hq2 : ¬ q.len ≤ y := by omega
+      simp [step, tryEquiv, tryFind_lt h hx, tryFind_lt h hy, specOut, firstBad, hq1, hq2,
+        same_eq h hrel hx hy]
+    · have hq1 : ¬ q.len ≤ x := by omega
+      have hq2 : q.len ≤ y := by omega
+      simp [step, tryEquiv, tryFind_lt h hx, tryFind_ge (Nat.le_of_not_lt hy), specOut, firstBad,
+        hq1, hq2]
+    · have hq1 : q.len ≤ x := by omega
+      simp [step, tryEquiv, tryFind_ge (Nat.le_of_not_lt hx), specOut, firstBad, hq1]
+    · have hq1 : q.len ≤ x := by omega
+      simp [step, tryEquiv, tryFind_ge (Nat.le_of_not_lt hx), specOut, firstBad, hq1]
+  | union x y =>
+    by_cases hxy : x = y
+    · subst hxy; simp [step, tryUnion_same, specOut]
+    · by_cases hx : x < s.len
+      · by_cases hy : y < s.len
+        · have hq1 : ¬ q.len ≤ x := by omega
+          have hq2 : ¬ q.len ≤ y := by omega
+          obtain ⟨s', h1, _⟩ := tryUnion_good h hxy hx hy
+          simp [step, h1, specOut, hxy, firstBad, hq1, hq2, same_eq h hrel hx hy]
+        · have hq1 : ¬ q.len ≤ x := by omega
+          have hq2 : q.len ≤ y := by omega
+          obtain ⟨s', h1, _⟩ := tryUnion_bad2 h hxy hx (Nat.le_of_not_lt hy)
+          simp [step, h1, specOut, hxy, firstBad, hq1, hq2]
+      · have hq1 : q.len ≤ x := by omega
+        simp [step, tryUnion_bad1 hxy (Nat.le_of_not_lt hx), specOut, hxy, firstBad, hq1]
+  | tryUnion x y =>
+    by_cases hxy : x = y
+    · subst hxy; simp [step, tryUnion_same, specOut]
+    · by_cases hx : x < s.len
+      · by_cases hy : y < s.len
+        · have hq1 : ¬ q.len ≤ x := by omega
+          have hq2 : ¬ q.len ≤ y := by omega
+          obtain ⟨s', h1, _⟩ := tryUnion_good h hxy hx hy
+          simp [step, h1, specOut, hxy, firstBad, hq1, hq2, same_eq h hrel hx hy]
+        · have hq1 : ¬ q.len ≤ x := by omega
+          have hq2 : q.len ≤ y := by omega
+          obtain ⟨s', h1, _⟩ := tryUnion_bad2 h hxy hx (Nat.le_of_not_lt hy)
+          simp [step, h1, specOut, hxy, firstBad, hq1, hq2]
+      · have hq1 : q.len ≤ x := by omega
+        simp [step, tryUnion_bad1 hxy (Nat.le_of_not_lt hx), specOut, hxy, firstBad, hq1]
+  | labeling => simp [step, intoLabeling_spec h, specOut, hl]
+  | len => simp [step, specOut, hl]
+  | capacityOp => rfl
+
+theorem specOut_ne_fault (s : State) (q : QF) (op : Op) (f : Fault) : specOut s q op ≠ .fault f := by
+  cases op <;> simp only [specOut] <;> (repeat' split) <;> simp
+
+theorem no_fault (s : State) (op : Op) (h : Inv s) : ∀ f, (step s op).2 ≠ .fault f := by
+  intro f
+  by_cases hop : op = .newSet
+  · subst hop; simp [step]
+  · rw [outputs s (canonQ s) op h (canonQ_len s).symm (canonQ_rel h) (fun e => absurd e hop)]
+    exact specOut_ne_fault _ _ _ _
 
 theorem compression_invisible (s : State) (op : Op) (h : Inv s)
     (hnm : ∀ q : QF, s.len = q.len → specStep q op = q) (x : Nat) (hx : x < s.len) :
-    tryFind (step s op).1 x = tryFind s x := by sorry
+    tryFind (step s op).1 x = tryFind s x := by
+  have _ := hx
+  rcases op_cases s.len op with rfl | ⟨a, b, hop, hab, ha, hb⟩ | ⟨hns, hu⟩
+  · have := hnm (canonQ s) (canonQ_len s).symm
+    have := congrArg QF.len this
+    simp only [specStep, len_newSet] at this
+    omega
+  · have hn := len_new s.len
+    have e := hnm (QF.new s.len) hn.symm
+    have hq : specStep (QF.new s.len) op = (QF.new s.len).union a b := by
+      have : a ≠ b ∧ a < (QF.new s.len).len ∧ b < (QF.new s.len).len := ⟨hab, by omega, by omega⟩
+      rcases hop with rfl | rfl <;> simp only [specStep] <;> rw [if_pos this]
+    rw [hq] at e
+    have ha' : a < (QF.new s.len).len := by omega
+    have hb' : b < (QF.new s.len).len := by omega
+    have e2 : cl ((QF.new s.len).union a b) b = cl (QF.new s.len) b := by rw [e]
+    rw [cl_union ha' hb' hb', if_pos rfl, cl_new ha, cl_new hb] at e2
+    exact absurd e2 hab
+  · exact (step_pres h op hns hu).tryFind h x
 
 theorem try_errors (s : State) (x y : Nat) (h : Inv s) (hbad : ¬ (x < s.len ∧ y < s.len)) (z : Nat)
     (hz : z < s.len) :
-    tryFind (step s (.tryUnion x y)).1 z = tryFind s z ∧ tryFind (step s (.union x y)).1 z = tryFind s z := by sorry
+    tryFind (step s (.tryUnion x y)).1 z = tryFind s z ∧ tryFind (step s (.union x y)).1 z = tryFind s z := by
+  have _ := hz
+  obtain ⟨s', r, h1, p⟩ := tryUnion_pres h (x := x) (y := y) (fun hc => hbad hc.2)
+  rw [(step_union_fst h1).1, (step_union_fst h1).2]
+  exact ⟨p.tryFind h z, p.tryFind h z⟩
+
+theorem unionsOf_pres {n : Nat} {op : Op} {ops : List Op} (hns : op ≠ .newSet)
+    (hu : ∀ x y, (op = .union x y ∨ op = .tryUnion x y) → ¬ (x ≠ y ∧ x < n ∧ y < n)) :
+    unionsOf n (op :: ops) = unionsOf n ops := by
+  cases op with
+  | newSet => exact absurd rfl hns
+  | union x y => have := hu x y (.inl rfl); simp only [unionsOf, this, if_false]
+  | tryUnion x y => have := hu x y (.inr rfl); simp only [unionsOf, this, if_false]
+  | _ => rfl
+
+theorem specRun_connected : ∀ (ops : List Op) (q : QF) (us : List (Nat × Nat)), Ok q →
+    (∀ p, p ∈ us → p.1 < q.len ∧ p.2 < q.len) →
+    (∀ x y, x < q.len → y < q.len → (cl q x = cl q y ↔ Connected us x y)) →
+    ∀ x y, x < (specRun q ops).len → y < (specRun q ops).len →
+      (cl (specRun q ops) x = cl (specRun q ops) y ↔ Connected (us ++ unionsOf q.len ops) x y)
+  | [], q, us, _, _, hrel => by
+    simpa [specRun, unionsOf] using hrel
+  | op :: ops, q, us, ok, hus, hrel => by
+    rcases op_cases q.len op with rfl | ⟨a, b, hop, hab, ha, hb⟩ | ⟨hns, hu⟩
+    · have hus' : ∀ p, p ∈ us → p.1 < q.newSet.len ∧ p.2 < q.newSet.len := by
+        intro p hp; have := hus p hp; rw [len_newSet]; omega
+      have hrel' : ∀ x y, x < q.newSet.len → y < q.newSet.len →
+          (cl q.newSet x = cl q.newSet y ↔ Connected us x y) := by
+        rw [len_newSet]
+        exact connected_newSet hus hrel (fun x hx => cl_lt ok hx) (fun x hx => cl_newSet_lt hx)
+          (cl_newSet_len q)
+      have := specRun_connected ops q.newSet us (ok_newSet ok) hus' hrel'
+      rw [len_newSet] at this
+      exact this
+    · have hq : specStep q op = q.union a b := by
+        have : a ≠ b ∧ a < q.len ∧ b < q.len := ⟨hab, ha, hb⟩
+        rcases hop with rfl | rfl <;> simp only [specStep] <;> rw [if_pos this]
+      have hun : unionsOf q.len (op :: ops) = (a, b) :: unionsOf q.len ops := by
+        have : a ≠ b ∧ a < q.len ∧ b < q.len := ⟨hab, ha, hb⟩
+        rcases hop with rfl | rfl <;> simp only [unionsOf] <;> rw [if_pos this]
+      have hlen := len_union ha hb
+      have hus' : ∀ p, p ∈ us ++ [(a, b)] → p.1 < (q.union a b).len ∧ p.2 < (q.union a b).len := by
+        intro p hp
+        rw [hlen]
+        rcases List.mem_append.mp hp with hp | hp
+        · exact hus p hp
+        · simp at hp; subst hp; exact ⟨ha, hb⟩
+      have hrel' : ∀ x y, x < (q.union a b).len → y < (q.union a b).len →
+          (cl (q.union a b) x = cl (q.union a b) y ↔ Connected (us ++ [(a, b)]) x y) := by
+        rw [hlen]
+        intro x y hx hy
+        rw [cl_union ha hb hx, cl_union ha hb hy]
+        exact connected_union ha hb hus hrel x y hx hy
+      have := specRun_connected ops (q.union a b) (us ++ [(a, b)]) (ok_union ok ha hb) hus' hrel'
+      rw [hlen, List.append_assoc, List.singleton_append] at this
+      show ∀ x y, x < (specRun (specStep q op) ops).len → y < (specRun (specStep q op) ops).len →
+        (cl (specRun (specStep q op) ops) x = cl (specRun (specStep q op) ops) y ↔ _)
+      rw [hq, hun]
+      exact this
+    · have hq : specStep q op = q := specStep_pres hns hu
+      show ∀ x y, x < (specRun (specStep q op) ops).len → y < (specRun (specStep q op) ops).len →
+        (cl (specRun (specStep q op) ops) x = cl (specRun (specStep q op) ops) y ↔ _)
+      rw [hq, unionsOf_pres hns hu]
+      exact specRun_connected ops q us ok hus hrel
+
+theorem connected_nil {x y : Nat} (h : Connected [] x y) : x = y := by
+  induction h with
+  | refl x => rfl
+  | edge h => simp at h
+  | symm _ ih => exact ih.symm
+  | trans _ _ ih1 ih2 => exact ih1.trans ih2
 
 theorem qf_connected (n : Nat) (ops : List Op) (x y : Nat)
     (hx : x < (specRun (QF.new n) ops).len) (hy : y < (specRun (QF.new n) ops).len) :
-    (specRun (QF.new n) ops).same x y = true ↔ Connected (unionsOf n ops) x y := by sorry
+    (specRun (QF.new n) ops).same x y = true ↔ Connected (unionsOf n ops) x y := by
+  rw [same_iff hx hy]
+  have := specRun_connected ops (QF.new n) [] (ok_new n) (by simp)
+    (by
+      intro x y hx hy
+      rw [len_new] at hx hy
+      rw [cl_new hx, cl_new hy]
+      exact ⟨fun e => e ▸ .refl _, connected_nil⟩) x y hx hy
+  rw [len_new, List.nil_append] at this
+  exact this
 
 end PetgraphModel.UFProofs
